@@ -490,6 +490,11 @@ func genC13(r *world.Rng, w *world.World, big bool) {
 			total += 4096
 		}
 		var pad strings.Builder
+		if r.Bool(0.4) { // one comment line longer than the buffer, with text that would parse as constraints in its tail
+			tail := r.PickS(" 1 -2 0", " these are words", " 3 0 ", " +1 x1 >= 1 ;", " 7")
+			pad.WriteString(cp + strings.Repeat(r.PickS("x", "1 ", "ab "), r.Range(1400, 4600)) + tail + "\n")
+			total = 0
+		}
 		for total > 0 {
 			n := r.Range(40, 900)
 			if n > total {
